@@ -333,11 +333,9 @@ static const char* ORDERS[12] = { "XYZ", "XZY", "YXZ", "YZX", "ZXY", "ZYX", "XYX
 template<class T>
 static std::string rotAll(const Matrix4_<T>& R, const R3& Rref, const char* origin, const char* relEuler)
 {
-	// tight: c*eps for the well-conditioned conversions (quaternion <-> matrix <-> axis-angle, any angle incl. tiny ones).
-	// Euler angles: a matrix composed by rotateE has its small elements to full RELATIVE precision, so an accurate
-	// extraction with the same axis order loses only c*eps at any distance from gimbal lock (relEuler = that order); a matrix coming from a quaternion has
-	// absolute noise ~eps in them, and the extraction is then only accurate to eps * cond, cond = 1/cy, where cy is the
-	// cosine (resp. sine) of the middle angle (below 4 eps the locked formulas must be in use and are accurate to c*eps).
+	// tight = c*eps for every conversion, at any angle (incl. 10^-k) and at any distance from gimbal lock: going from a rotation
+	// to Euler angles and back to a rotation is a well-conditioned problem (only the individual angles are ill-conditioned next to
+	// the lock), also for matrices whose small elements carry absolute noise ~eps (those coming from a quaternion).
 	LD eps = Eps<T>::v(), tight = 64 * eps;
 	std::string tn = std::string(Eps<T>::n()) + " " + origin + " ";
 	LD e = rdist(R, Rref);
@@ -363,9 +361,7 @@ static std::string rotAll(const Matrix4_<T>& R, const R3& Rref, const char* orig
 		if (!(a.x == a.x && a.y == a.y && a.z == a.z)) return "fail " + tn + "eulerAngles(" + name + ") is NaN";
 		// independent composition in long double: moving axes R[a0](x) R[a1](y) R[a2](z); fixed axes = reversed product
 		int i0 = name[0] - 'X', i1 = name[1] - 'X', i2 = name[2] - 'X';
-		int b0 = fixed ? i2 : i0, b1 = i1, b2 = fixed ? i0 : i2, bk = 3 - b0 - b1;
-		LD cy = b0 != b2 ? hypotl(Rref.m[b0][b0], Rref.m[b0][b1]) : hypotl(Rref.m[b1][b0], Rref.m[bk][b0]);
-		LD loose = ((relEuler && !strcmp(relEuler, name)) || cy < 4 * eps) ? tight : 16 * eps * std::max((LD)1, 1 / cy);
+		LD loose = tight;
 		R3 ref = fixed ? ldmul(ldmul(ldaxis(i2, a.z), ldaxis(i1, a.y)), ldaxis(i0, a.x))
 		               : ldmul(ldmul(ldaxis(i0, a.x), ldaxis(i1, a.y)), ldaxis(i2, a.z));
 		LD e1 = 0;
